@@ -24,7 +24,6 @@ pub broadcast axiom fn axiom_parse_sockaddr_port(host: Seq<char>, p: nat)
 pub struct AddrParseError {}
 pub struct TryFromIntError {}
 impl IpAddr {
-    #[verifier::external_body] pub fn to_string(&self) -> (r: String) ensures r@ == ip_text(*self) { unimplemented!() }
     #[verifier::external_body] pub fn from_str(s: &str) -> (r: Result<IpAddr, AddrParseError>)
         ensures match r { Ok(ip) => parse_ip(s@) == Some(ip), Err(_) => parse_ip(s@) is None } { unimplemented!() }
 }
